@@ -316,8 +316,11 @@ func (progBldr *ProgBuilder) CodePathOper(elem int) {
 		// not implemented
 	case '/':
 		pathOperPush = func(ctx *context) {
-			ctx.actualPathStack.PeakPath().SetIsRootBased(true)
-			//ctx.actualPathStack.PushElem("/")
+			// An absolute path starts again at the root.  Inside a
+			// predicate the top path is a copy of the path being
+			// filtered, which an absolute operand path must not extend.
+			ctx.actualPathStack.PopPath()
+			ctx.actualPathStack.PushPath(&sdcpb.Path{IsRootBased: true})
 		}
 	default:
 		// unknown
